@@ -9,6 +9,7 @@ Src322  == << <<2, 2, 1>>, <<2, 1>> >>
 Src21   == << <<2, 1>>, <<1>> >>
 Src1    == << <<2>>, <<1>> >>
 Src0    == << <<0>>, <<2, 1>> >>       \* an empty message (single empty final chunk)
+Src121  == << <<1, 2, 1>>, <<1, 1>> >>  \* non-final chunks shorter than the chunk size (an encryptor fed by short reads writes them)
 Src22   == << <<2, 2>>, <<2>> >>       \* final chunks that are exactly full (nothing spare in a chunk-sized buffer)
 
 ----------------------------------------------------------------------------
